@@ -10,7 +10,7 @@ git -C /repo worktree add -q --detach "$S" HEAD || exit 2
 if ! git -C "$S" apply "$PATCH"; then echo "PATCH DOES NOT APPLY"; git -C /repo worktree remove --force "$S"; exit 2; fi
 RC=0
 for P in "$@"; do
-  V=$(mktemp -d /tmp/passv.XXXXXX); cp /verif/known_findings.txt /verif/MANIFEST.json "$V/"
+  V=$(mktemp -d /tmp/passv.XXXXXX); cp /verif/known_findings.txt /verif/MANIFEST.json "$V/"; cp -r /verif/models "$V/models" 2>/dev/null
   START=$(date +%s)
   OUT=$(timeout 1500 /verif/bin/govc check -repo "$S" -verif "$V" -prop "$P" 2>&1); R=$?
   N=$(echo "$OUT" | grep -c '^VIOLATION')
